@@ -12,3 +12,11 @@ pub fn fixed_random_state() -> std::hash::RandomState {
     // RandomState is { k0: u64, k1: u64 }
     unsafe { core::mem::transmute::<(u64, u64), std::hash::RandomState>((0x0706050403020100, 0x0f0e0d0c0b0a0908)) }
 }
+
+/// `alloc::fmt::format` -> failed check + end of path.  For harnesses where every `format!` sits on an
+/// error path that must be unreachable (e.g. all I/O succeeds): reaching it is reported, and the path is
+/// cut BEFORE the error value's (recursive, exploding) drop glue.
+#[allow(dead_code)]
+pub fn fmt_format_unreachable(_args: core::fmt::Arguments<'_>) -> String {
+    panic!("error path reached: a format!() call was executed")
+}
